@@ -144,9 +144,24 @@ def run(ctx):
         items = list(dc.decays.items())
         rng.shuffle(items)
         dc = DecayChain(dc.mother, dict(items))
+        intact = True
         for st in rng.sample(stable_sets(dc, rng), k=3):
             if not one(dc, st, "random"):
+                intact = False
                 break
+        if intact and i % 3 == 0:
+            # the chain edited through its public mapping after it has been flattened: a so-far stable particle is given a decay,
+            # then a decaying particle is made stable again; every later answer describes the chain as it is then
+            _ = dc.visible_bf
+            leaves = sorted({d for v in dc.decays.values() for d in v.daughters.to_list()} - set(dc.decays))
+            if leaves:
+                leaf = rng.choice(leaves)
+                bf = Fraction(1, 3) if exact else 0.25
+                dc.decays[leaf] = DecayMode(bf, ["zz_new1", "zz_new1", "zz_new2"])
+                if one(dc, [], "history:decay-added") and one(dc, [leaf], "history:decay-added"):
+                    gone = rng.choice([k for k in dc.decays if k != dc.mother])
+                    del dc.decays[gone]
+                    one(dc, [], "history:decay-removed")
     # stable set given as other iterables
     dc = build_chain([("A", ["B", "B", "c"]), ("B", ["d", "E"]), ("E", ["f", "f"])], rng, exact=True)
     for st in (("B",), {"B"}, ["E"], "E", {"E": 1}):
